@@ -2,7 +2,7 @@ import Wx.Job.C07b
 import Wx.Job.C07w
 import Wx.Job.C10c
 import Wx.Job.C06
-import Wx.Job.Api
+import Wx.Job.ApiThm
 /-! # C07 — Every control completes and every ticket resolves
 
 > Every control sent to a live job is executed exactly once (or skipped as documented) and its ticket resolves no later
